@@ -139,6 +139,36 @@ Section Misc.
     pose proof (valid_length (root t) p (Inv_shape _ rank dflt L I HI HI3 t Hinv) V). lia.
   Qed.
 
+  (* every frame of a valid iterator path is at most LEAF_VALS: the uint16_t indexes of ZixBTreeIter never truncate
+     in a configuration the sources accept (static_assert(ZIX_BTREE_LEAF_VALS <= UINT16_MAX)) *)
+  Lemma max_vals_le_L : forall n : node, max_vals L I n <= L.
+  Proof. intros n. unfold max_vals. destruct (is_leaf n); lia. Qed.
+
+  Lemma valid_index_bound_wfn : forall h (n : node) p, wfn L I h n -> valid n p -> Forall (fun i => i <= L) p.
+  Proof.
+    induction h as [|h IH]; intros n p W V; [destruct n; cbn in W; tauto|].
+    pose proof (proj1 (wfn_iff _ rank dflt L I HI HI3 (S h) n) W) as [_ [_ B]].
+    pose proof (max_vals_le_L n) as M.
+    destruct p as [|i [|j q]]; [destruct V|cbn in V; repeat constructor; lia|].
+    rewrite valid_cons2 in V. destruct V as (Hleaf & Hi & V).
+    destruct n as [vs|vs cs]; [discriminate|].
+    assert (Wc : wfn L I h (nth i cs dnode)).
+    { unfold n_vals in Hi. cbn [vals] in Hi. apply (wfn_child _ rank dflt L I HI HI3 h vs cs i W Hi). }
+    constructor; [lia|]. exact (IH _ _ Wc V).
+  Qed.
+
+  Lemma valid_index_bound : forall (r : node) p, shape_ok L I r -> valid r p -> Forall (fun i => i <= L) p.
+  Proof.
+    intros r p [h (K & B & _)] V. pose proof (max_vals_le_L r) as M.
+    destruct h as [|h]; [destruct r; cbn in K; tauto|].
+    destruct p as [|i [|j q]]; [destruct V|cbn in V; repeat constructor; lia|].
+    rewrite valid_cons2 in V. destruct V as (Hleaf & Hi & V).
+    destruct r as [vs|vs cs]; [discriminate|].
+    assert (Wc : wfn L I h (nth i cs dnode)).
+    { unfold n_vals in Hi. cbn [vals] in Hi. apply (kids_ok_child _ rank dflt L I HI HI3 h vs cs i K Hi). }
+    constructor; [lia|]. exact (valid_index_bound_wfn h _ _ Wc V).
+  Qed.
+
   (* ---------------------------------------------------------------- destroy order *)
   Lemma inter_perm : forall (ecs : list (list elt)) vs, length ecs = S (length vs) ->
     Permutation (inter ecs vs) (concat ecs ++ vs).
